@@ -64,7 +64,8 @@ def observe(cmd, args):
         if r is None: return "rejected"
         if r.name != E["name"]: return "name: %r" % r.name
         if r.extras != set(E["extras"] or []): return "extras: %r" % sorted(r.extras)
-        if r.specifier != exp or {str(x) for x in r.specifier} != {str(Specifier(c)) for c in E["clauses"]} or len(r.specifier) != len(exp):
+        if (r.specifier != exp or {str(x) for x in r.specifier} != {str(x) for x in exp} or len(r.specifier) != len(exp)
+                or any(Specifier(c) not in r.specifier._specs for c in E["clauses"]) or str(r.specifier) != str(exp)):
             return "specifier: %r, expected %r" % (str(r.specifier), str(exp))
         if r.url != E["url"]: return "url: %r" % r.url
         if (r.marker is None) != (mk is None): return "marker presence"
